@@ -26,4 +26,4 @@ DELIVERABLES, all written into the directory {out} (create it):
   1. patch.diff   - output of `git -C {wt} diff` (changes under src/xdoctest only; do not commit).
   2. demo.py      - a small self-contained program that uses only the public behaviour of xdoctest (run as: PYTHONPATH=<tree>/src /venv/bin/python demo.py) and exits 0 on the unchanged tree and exits non-zero (printing what went wrong) with your change applied. It must demonstrate a violation of the PROPERTY as stated, not merely a difference in behaviour.
   3. meta.json    - {{"property": "{p['id']}", "summary": "<what the change does>", "needs": "<what specific input/sequence/flags it needs in order to manifest>", "files": [...], "tests_run": "<the command you ran>", "tests_result": "<e.g. 296 passed, 2 deselected>"}}
-Verify yourself before finishing: demo.py fails with the change and passes after `git -C {wt} stash` (then `git -C {wt} stash pop`), and the full test suite passes with the change. Leave the worktree WITH your change applied. Report in your final message: the summary, what it needs to manifest, and the test results. If your first idea is caught by the test suite, try another idea (up to ~4 attempts).""" + (f"\n\nDIVERSITY: other people already wrote seeded changes in these places: {avoid}. Do NOT touch those functions; pick a different site and a different mechanism." if avoid else '') + ("\n\nEVASIVE: assume the people checking this property use differential testing of small and medium generated inputs (short strings over small alphabets, doctests of a few statements, modules of a few functions, every flag combination) plus some structured random inputs. Make your defect one that such testing tends to MISS although it is a real violation for legitimate inputs: it should need e.g. a size or count above a threshold, long lines, deep nesting, an unusual but legal character class (non-ASCII letters, other Unicode whitespace, form feeds), a rarely combined pair of options, a particular order of three or more events, or a legal syntax form generators rarely emit." if evasive else ''))
+Verify yourself before finishing: demo.py fails with the change and passes on the unchanged tree (do NOT use `git stash`: the stash is shared by all worktrees of the repository and other people work in theirs at the same time; use `git -C {wt} diff > {out}/patch.diff; git -C {wt} apply -R {out}/patch.diff; <run demo>; git -C {wt} apply {out}/patch.diff`), and the full test suite passes with the change. Leave the worktree WITH your change applied. Report in your final message: the summary, what it needs to manifest, and the test results. If your first idea is caught by the test suite, try another idea (up to ~4 attempts).""" + (f"\n\nDIVERSITY: other people already wrote seeded changes in these places: {avoid}. Do NOT touch those functions; pick a different site and a different mechanism." if avoid else '') + ("\n\nEVASIVE: assume the people checking this property use differential testing of small and medium generated inputs (short strings over small alphabets, doctests of a few statements, modules of a few functions, every flag combination) plus some structured random inputs. Make your defect one that such testing tends to MISS although it is a real violation for legitimate inputs: it should need e.g. a size or count above a threshold, long lines, deep nesting, an unusual but legal character class (non-ASCII letters, other Unicode whitespace, form feeds), a rarely combined pair of options, a particular order of three or more events, or a legal syntax form generators rarely emit." if evasive else ''))
